@@ -22,7 +22,10 @@ RULE = ("(a) every uatomic operation (set, read, xchg, cmpxchg miss and hit, add
         "back-ends the instructions the compiler emitted for a probe are parsed, interpreted sequentially against the native "
         "function and the documented semantics on a 22-value operand grid (binding), and translated into a Promela model of two "
         "threads with x86-TSO store buffers which Spin explores exhaustively: no lost update / token conservation / single "
-        "cmpxchg winner, and no 0/0 outcome of the store-buffering litmus around xchg, successful cmpxchg, add_return, sub_return; "
+        "cmpxchg winner, and no 0/0 outcome of the store-buffering litmus around xchg, successful cmpxchg, add_return, sub_return; the same for a "
+        "third build of the x86 back-end as a pre-C11 client sees it (-std=gnu99: compatibility memory-order path), and in all three builds the litmus "
+        "also for the stores with an explicit order that the library's own reader fast paths use (uatomic_store CMM_SEQ_CST / CMM_SEQ_CST_FENCE, "
+        "uatomic_set + cmm_smp_mb); "
         "for the same four barrier operations x 4 widths x 2 back-ends a compiler-barrier probe (plain load and store on each side of "
         "the operation) is compiled at -O2 and its instruction sequence checked: both loads and both stores are emitted on their side "
         "of the atomic instruction; a case is non-trivial when operand and old value are not both zero")
